@@ -95,15 +95,15 @@ def run(ctx, pid, oracle, name, assumptions, fields=("view", "adjin", "counters"
                             correspondence_name=name, impl_spec=IMPL_SPEC, model_name="spk")
     pc = core.proof_coverage(proof)
     pc.update(cov)
-    if extra:
-        # a second, package-level correspondence for the same property
-        cov2, cases2 = extra(ctx, proof)
+    for ex in (extra if isinstance(extra, (list, tuple)) else ([extra] if extra else [])):
+        # further correspondences / oracle-only scenario families for the same property
+        cov2, cases2 = ex(ctx, proof)
         pc["evaluations"] = pc.get("evaluations", 0) + cov2["evaluations"]
         pc["distinct_nontrivial"] = pc.get("distinct_nontrivial", 0) + cov2["distinct_nontrivial"]
         pc["traces_validated_against_impl"] = pc.get("traces_validated_against_impl", 0) + cov2["traces_validated_against_impl"]
         pc["disagreements_checked"] = pc.get("disagreements_checked", 0) + cov2["disagreements_checked"]
         pc["samples"] = pc.get("samples", []) + cov2["samples"][:2]
-        pc["second_correspondence"] = {"evaluations": cov2["evaluations"], "distinct_nontrivial": cov2["distinct_nontrivial"]}
+        pc.setdefault("further_families", []).append({"evaluations": cov2["evaluations"], "distinct_nontrivial": cov2["distinct_nontrivial"], "sample": (cov2.get("samples") or [""])[0][:200]})
     kinds_count = {}
     ev_count = {}
     for c in cases:
@@ -122,6 +122,15 @@ def run(ctx, pid, oracle, name, assumptions, fields=("view", "adjin", "counters"
             "Python restatement of the property in checks/simlib.py (class Spec) and the oracle of this check"] + list(extra_trusted),
     })
     return ctx.finish(pc, assumptions)
+
+
+EMPTY_MODEL_LINE = "(spk (g 65000 1 1) (peers) (steps))"
+
+
+def oracle_only(ctx, proof, cases, line_of, oracle, name):
+    """A scenario family outside the Speaker model: the whole-server simulation runs it, the oracle decides."""
+    return core.differential(ctx, "spk", proof, cases, line_of, oracle, model_line_of=lambda c: EMPTY_MODEL_LINE, model_applies=lambda c: False,
+                             nontrivial=lambda c: True, correspondence_name=name, impl_spec=IMPL_SPEC, model_name="spk"), cases
 
 
 def replay(ctx, path):
